@@ -381,49 +381,38 @@ def rescheduleAsFaults (qs : QuantSpec) (q : Queue) (newExp : Int) (infos : List
 
 /-! ### `reschedule_all_as_faults` -/
 
-/-- the `for_each`: entries at or before the quantised fault expiration turn all their power
-    faulty; later entries are collected (error when one has early sectors).  `try_into` of a
-    negative key cannot fail here because keys in the AMT are u64. -/
-def collectAllFaults (faultQ : Int) :
-    Queue → Except Err (List (Int × ExpSet) × List Int × NatSet × PowerPair × Int)
+/-- the `for_each` + write-back of `reschedule_all_as_faults` as one walk over the (ascending) AMT:
+    entries at or before the quantised fault expiration turn all their power faulty (the Rust
+    collects the mutated sets and writes them back with `must_update` under their own keys — an
+    in-place replacement — and validates each); later entries are dropped from the queue (the Rust
+    `batch_delete`s their keys at the end, which commutes with the intervening `add` under the
+    earlier key) and aggregated; an error if one of them has early sectors.
+    Returns (kept entries, dropped epochs, their on-time sectors, their power, their fee). -/
+def allFaultsWalk (faultQ : Int) :
+    Queue → Except Err (Queue × List Int × NatSet × PowerPair × Int)
   | [] => .ok ([], [], [], PowerPair.zero, 0)
   | (e, es) :: rest =>
     if e ≤ faultQ then
-      match collectAllFaults faultQ rest with
+      let es' : ExpSet := { es with faulty := es.faulty + es.active, active := PowerPair.zero }
+      match allFaultsWalk faultQ rest with
       | .error err => .error err
-      | .ok (muts, eps, secs, pow, fee) =>
-        .ok ((e, { es with faulty := es.faulty + es.active, active := PowerPair.zero }) :: muts,
-             eps, secs, pow, fee)
+      | .ok (kept, eps, secs, pow, fee) =>
+        match es'.validate with
+        | .error err => .error err
+        | .ok () => .ok ((e, es') :: kept, eps, secs, pow, fee)
     else if !es.early.isEmpty then .error .illegalState
     else
-      match collectAllFaults faultQ rest with
+      match allFaultsWalk faultQ rest with
       | .error err => .error err
-      | .ok (muts, eps, secs, pow, fee) =>
-        .ok (muts, e :: eps, union es.onTime secs, (es.active + es.faulty) + pow, es.fee + fee)
-
-def updateAll : Queue → List (Int × ExpSet) → Except Err Queue
-  | q, [] => .ok q
-  | q, (e, es) :: rest =>
-    match mustUpdate q e es with
-    | .error err => .error err
-    | .ok q1 =>
-      match es.validate with
-      | .error err => .error err
-      | .ok () => updateAll q1 rest
-
-def deleteAll (q : Queue) (eps : List Int) : Queue := eps.foldl (fun acc e => qdel e acc) q
+      | .ok (kept, eps, secs, pow, fee) =>
+        .ok (kept, e :: eps, union es.onTime secs, (es.active + es.faulty) + pow, es.fee + fee)
 
 def rescheduleAllAsFaults (qs : QuantSpec) (q : Queue) (faultExp : Int) : Except Err Queue :=
-  match collectAllFaults (qs.quantizeUp faultExp) q with
+  match allFaultsWalk (qs.quantizeUp faultExp) q with
   | .error e => .error e
-  | .ok (muts, eps, secs, pow, fee) =>
-    match updateAll q muts with
-    | .error e => .error e
-    | .ok q1 =>
-      if eps.isEmpty then .ok q1
-      else match qadd qs q1 faultExp [] secs PowerPair.zero pow 0 fee with
-        | .error e => .error e
-        | .ok q2 => .ok (deleteAll q2 eps)
+  | .ok (kept, eps, secs, pow, fee) =>
+    if eps.isEmpty then .ok kept
+    else qadd qs kept faultExp [] secs PowerPair.zero pow 0 fee
 
 /-! ### `reschedule_recovered` -/
 
